@@ -18,3 +18,17 @@ def cases(tier, seed):
 def groups(tier, seed):
     yield dict(name="convolve vs the strided multi-channel definition; both adjoints by the dot test; inadmissible shapes rejected",
                bound="1-D lengths 1..5 x 1..4, strides 1..3; 2-D lengths {1,3,4}^2 x {1,2,3}^2; multi-channel with a batch axis; one 3-D case", cases=cases(tier, seed))
+    yield dict(name="scipy.signal convolve / correlate vs the assumed contract of contracts/C08.py (ScipyC)",
+               bound="1-D lengths 1..5 x 1..5, 2-D shapes {1,2,4}^2 x {1,3}^2, one 3-D pair, modes full / valid (incl. second operand longer, mixed axes rejected), complex values",
+               cases=scipy_cases(tier, seed))
+
+
+def scipy_cases(tier, seed):
+    for m, n in itertools.product(range(1, 6), repeat=2):
+        for mode in ("full", "valid"):
+            yield dict(fn="scipy.contract", args=dict(shape_a=[m], shape_b=[n], mode=mode, seed=seed))
+    for sa, sb in itertools.product(itertools.product((1, 2, 4), repeat=2), itertools.product((1, 3), repeat=2)):
+        for mode in ("full", "valid"):
+            yield dict(fn="scipy.contract", args=dict(shape_a=list(sa), shape_b=list(sb), mode=mode, seed=seed))
+    yield dict(fn="scipy.contract", args=dict(shape_a=[2, 3, 2], shape_b=[3, 3, 4], mode="valid", seed=seed))
+    yield dict(fn="scipy.contract", args=dict(shape_a=[1, 2, 3, 4], shape_b=[1, 1, 2, 2], mode="full", seed=seed))
